@@ -85,9 +85,31 @@ def visit_pairing(repo, rep, rule):
             return []
         return default_raises(st, state)
 
-    fl = Flow(transfer, raises)
+    # statements that run the printer (directly or through a helper the printer is forwarded to)
+    runner_lines = []
+    pfn = w.params[0]
+
+    def transfer_outer(st, state):
+        for c in _walk_no_nested(st):
+            if isinstance(c, ast.Call) and (
+                    (isinstance(c.func, ast.Name) and c.func.id == pfn) or
+                    any(isinstance(a, ast.Name) and a.id == pfn for a in c.args) or
+                    any(isinstance(k.value, ast.Name) and k.value.id == pfn for k in c.keywords)):
+                runner_lines.append((st, state))
+        return transfer(st, state)
+    fl = Flow(transfer_outer, raises)
     out = fl.run(w.node, 0)
     rep.count(fl.visited_stmts)
+    g0 = Guards(w.node)
+    for st, state in runner_lines:
+        if state >= 1:
+            continue
+        n += 1
+        ok, why = _leaf_fast_path(repo, w, g0.of(st), value)
+        rep.check(ok, rule, 'wrapper:printer-runs-inside-visit-window@%s' % ('leaf-fast-path' if ok else 'line'), '%s:%d' % (w.module.relpath, st.lineno),
+                  'printer invoked outside the visit window only for acyclic leaf types (%s)' % why,
+                  'the printer is invoked at line %d without the value having been marked as visited (%s): a cycle through such a '
+                  'value is not cut at the back-reference' % (st.lineno, why), nontrivial=True)
     acquires = [c for c in ast.walk(w.node) if isinstance(c, ast.Call) and isinstance(c.func, ast.Attribute)
                 and c.func.attr == acq]
     n += 1
@@ -131,6 +153,44 @@ def visit_pairing(repo, rep, rule):
                   '%s:%d' % (w.module.relpath, r.lineno), 'marker only under the positive visited test',
                   'the recursion marker is returned without the "value is being visited" test', nontrivial=True)
     return n
+
+
+LEAF_TYPES = {'int', 'float', 'bool', 'str', 'bytes', 'complex', 'NoneType', 'type(None)', 'type(...)', 'type(Ellipsis)',
+              'type(NotImplemented)', 'range', 'bytearray'}
+
+
+def _leaf_fast_path(repo, w, facts_, value):
+    """a dominating test ``type(value) in X`` / ``type(value) is T`` with only acyclic leaf types"""
+    from engine.astutil import compare_parts
+    for f in facts_:
+        if not f.pol:
+            continue
+        cp = compare_parts(f.test, True)
+        if not cp:
+            continue
+        l, op, r = cp
+        if src(l) != 'type(%s)' % value:
+            continue
+        types = None
+        if op in ('is', '=='):
+            types = [src(r)]
+        elif op == 'in':
+            e = r
+            if isinstance(e, ast.Name):
+                rr = repo.resolve(w.module, e.id)
+                if rr and rr[0] == 'const':
+                    e = rr[2]
+            if isinstance(e, ast.Call) and e.args:
+                e = e.args[0]
+            if isinstance(e, (ast.Tuple, ast.List, ast.Set)):
+                types = [src(x) for x in e.elts]
+        if types is None:
+            return False, 'test %s not resolvable to a set of types' % f.text
+        bad = [t for t in types if t not in LEAF_TYPES]
+        if bad:
+            return False, 'fast path covers %s, which can take part in reference cycles' % bad
+        return True, ', '.join(types)
+    return False, 'no type test'
 
 
 def call_name_in(test, name):
